@@ -45,6 +45,8 @@ def coq_op(op):
             rk = '(RRetry %s)' % ['DRetry', 'DRetryNext', 'DRethrow', 'DIgnore'][arg]
         elif kind == 'other':
             rk = 'ROther'
+        elif kind == 'setks':
+            rk = 'RSetKs'
         else:
             rk = 'RJunk'
         return '(Resp %d %s)' % (op[1], rk)
@@ -58,6 +60,8 @@ def coq_op(op):
         return 'AddCb'
     if k == 'result':
         return 'Result'
+    if k == 'ksreport':
+        return '(KsReport %d %s %s)' % (op[1], z(op[2]), 'true' if op[3] else 'false')
     raise ValueError(op)
 
 
@@ -154,7 +158,7 @@ class Oracle(object):
                 if neb and not (f._event.is_set() and not fr_set and w.canon_exc(f._final_exception) == p['eb'][0]):
                     self._add('C14', 'result-mismatch.%s' % name, 'errback got %r but result() would not raise it' % (p['eb'][0],), i)
         # ---- C14: outcome delivered once everything is answered / the timeout fired
-        answered = bool(w.attempts) and not w.open_attempts() and not w.queue
+        answered = bool(w.attempts) and not w.open_attempts() and not w.queue and not any(ch['waiting'] for ch in w.chains)
         if answered or self.timeout_done:
             ok = f._event.is_set() and (fr_set or fe_set) and all(len(p['cb']) + len(p['eb']) >= 1 for p in w.pairs)
             if not ok:
@@ -162,7 +166,8 @@ class Oracle(object):
                           'every request answered / timeout fired, but no outcome was delivered to every pair', i)
         # ---- C15: in punctual histories (no live timer overdue) an unfinished fetch is at most T + 30 ms old
         T = w.cfg.get('timeout')
-        if self.punctual and self.sent and self.sent_at_once and T is not None and not (fr_set or fe_set):
+        in_scope = (self.sent and self.sent_at_once) or not w.cfg.get('specs')   # C15_bounded / C15_bounded_without_speculation
+        if self.punctual and in_scope and T is not None and not (fr_set or fe_set):
             if w.now > w.epoch_start + T + 30:
                 self._add('C15', 'unbounded.%s' % ('first-page' if self.page == 1 else 'later-page'),
                           'page %d fetch started at %d ms, timeout %d ms, still no outcome at %d ms and no timer pending'
@@ -215,8 +220,10 @@ def random_resp(rng, a):
     r = rng.random()
     if r < 0.30:
         return ['resp', a, 'rows', rng.random() < 0.4, None]
-    if r < 0.38:
+    if r < 0.36:
         return ['resp', a, 'void', None, None]
+    if r < 0.42:
+        return ['resp', a, 'setks', None, None]
     if r < 0.80:
         return ['resp', a, 'retry', rng.randrange(4), rng.choice(H.RETRY_CLASSES)]
     if r < 0.93:
@@ -250,6 +257,9 @@ def random_walk(rng, cfg, nsteps, punctual, illegal_p=0.05, resp_weight=3):
             cand.append(['tick', rng.choice([1, 10, 30, 31, 100, 1000, 5000])])
         for k in range(len(w.queue)):
             cand += [['run', k]] * 3
+        for c, ch in enumerate(w.chains):
+            for h in sorted(ch['waiting']):
+                cand += [['ksreport', c, h, rng.random() < 0.35]] * 2
         if w.has_paging():
             plan = hosts[:]
             rng.shuffle(plan)
@@ -262,6 +272,7 @@ def random_walk(rng, cfg, nsteps, punctual, illegal_p=0.05, resp_weight=3):
             cand.append(['pools', dict((h, rng.choice(['ok', 'ok', 'ok', 'noconn', 'sendfail', 'shutdown', 'missing'])) for h in hosts)])
         if rng.random() < illegal_p:
             cand = [['resp', rng.randint(0, 4), 'rows', False, None], ['fire', rng.randint(0, 4)], ['run', rng.randint(0, 3)],
+                    ['ksreport', rng.randint(0, 1), rng.choice(hosts), False],
                     ['nextpage', hosts], ['result']]
             if punctual:
                 cand = [c for c in cand if c[0] != 'tick']
@@ -301,6 +312,10 @@ def enumerate_orderings(cfg, kinds, max_depth, budget, allow_nextpage=True, fina
                 nxt.append((([['tick', d]] if d > 0 else []) + [['fire', k]], pages))
             for k in range(len(w.queue)):
                 nxt.append(([['run', k]], pages))
+            for c, ch in enumerate(w.chains):
+                for h in sorted(ch['waiting']):
+                    for err in (False, True):
+                        nxt.append(([['ksreport', c, h, err]], pages))
             if allow_nextpage and w.has_paging() and pages < 1 and w.f._event.is_set():
                 nxt.append(([['nextpage', list(cfg['plan'])]], pages + 1))
         if not nxt:
@@ -366,6 +381,39 @@ def directed_histories():
                     ops = head + fail + [['nextpage', [1, 2]]] + again
                     ops = ops + fire_until_quiet(cfg, ops) + [['tick', 5000], ['result'], ['addcb']]
                     out.append((cfg, ops, True))
+            # USE statement: SET_KEYSPACE answer, then the pools report their internal USE in every order, each may fail
+            import itertools
+            for order in itertools.permutations([1, 2, 3]):
+                for failing in (None, 1, 2, 3):
+                    ops = [['addcb'], ['send'], ['resp', 0, 'setks', None, None]] + \
+                          [['ksreport', 0, h, h == failing] for h in order] + [['result']]
+                    out.append((cfg, ops, True))
+            for pl in ({1: 'ok', 2: 'shutdown', 3: 'missing'}, {1: 'shutdown', 2: 'shutdown', 3: 'missing'}):
+                for err in (False, True):
+                    out.append((cfg, [['addcb'], ['send'], ['pools', pl], ['resp', 0, 'setks', None, None], ['ksreport', 0, 1, err], ['result']], True))
+            if T is not None:
+                # the client timeout fires when the pool of the current host is gone / shut down / still there (request in flight)
+                for st in ('missing', 'shutdown', 'noconn', 'ok'):
+                    head = [['addcb'], ['send'], ['pools', {1: st, 2: 'ok', 3: 'ok'}]]
+                    out.append((cfg, head + fire_until_quiet(cfg, head) + [['tick', 5000], ['result']], True))
+                # ... and between an answer and what the answer leaves pending: queued retry, keyspace propagation
+                for mid in ([['resp', 0, 'retry', 0, 'ReadTimeout']], [['resp', 0, 'retry', 1, 'ConnException']], [['resp', 0, 'setks', None, None]]):
+                    head = [['addcb'], ['send']] + mid
+                    out.append((cfg, head + fire_until_quiet(cfg, head) + [['tick', 5000], ['result']], True))
+                # no host can be reached and send_request() comes late (or never): _on_timeout re-arms itself while no connection is known
+                for late in (None, 2, 5):
+                    cfgn = {'plan': [1, 2], 'timeout': T, 'specs': specs, 'pools': {1: 'noconn', 2: 'sendfail' if late == 5 else 'noconn'}, 'now': 0}
+                    ops = []
+                    w = H.World(cfgn)
+                    for i in range(8):
+                        if late is not None and i == late:
+                            ops.append(['send'])
+                            w.step(['send'])
+                        nxt = fire_until_quiet(cfgn, ops, limit=1)
+                        ops += nxt
+                        for op in nxt:
+                            w.step(op)
+                    out.append((cfgn, ops + [['tick', 5000], ['result']], True))
             # fail-then-silent: the first coordinator fails retryably, the re-sent request is never answered
             if T is not None:
                 for dec in (0, 1):
